@@ -16,6 +16,8 @@ CHECKS = {
  "C03": ("Same module as C01; the environment also chooses how and at which step the pipeline fails (function error, fatal result, requirements that never stabilise) and changes the desired set; "
          "TLC judges FailSafe (no composed write, references untouched after an observation/pipeline failure), NeverDeleteDesired and GcExact (deleted = referenced, controllable, no longer desired) on the real traces.",
          "Two-step scripted pipeline (step 1 over-approximates, the last step decides); bounds as C01.", "DESIGN.md 3 C03"),
+ "C05": ("spec/Conditions.tla states when Ready/Synced may be reported; TLC enumerates every combination of per-resource ready/apply/render outcomes, XR-level ready flag, function conditions (system and custom types), fatal result and prior conditions; each vector is two or three reconciles of the real composite.Reconciler with the real composers (and of the real claim.Reconciler with both syncers for the claim leg); TLC judges ReadyTruth, SyncedTruth, NoForgery, CustomKept, UnknownOnFatal, ClaimReady on the stored conditions.",
+         "Exhaustive over the vector domain (6288 vectors) in both tiers; an erroring reconcile leaves the previous Ready condition: the property is read as a statement about what a reconcile newly asserts.", "DESIGN.md 3 C05"),
  "C07": ("spec/FieldPartition.tla states the claim/XR field partition independently of the code's tables; TLC enumerates presence/absence classes of every machinery field, user fields that shadow machinery names at other nesting levels, reserved/unreserved label keys, update policies, both syncers, first sync and re-sync; each vector is pruned by the real generated claim CRD, run through the real Sync of both syncers on simapi (real SSA field ownership) and judged by 24 TLA+ formulas.",
          "Values are atoms; two behaviours the property does not demand are deliberately not asserted (DESIGN 3 C07); look-alike label keys are an observation outside the default runs.", "DESIGN.md 3 C07"),
  "C09": ("spec/ConnSecrets.tla: TLC enumerates connection detail maps, XRD key filters, extraction configs and every pre-state of source/destination secrets; the real publisher, extractor and claim propagator (and end-to-end the real XR and claim reconcilers) run on stored secrets; TLC judges Filtered, OnlyIfAsked, ExactCopy, NoRead, NoRewrite, ForeignUntouched, OwnerOnly on each recorded outcome.",
